@@ -10,7 +10,7 @@ HARNESS = "mt"
 HARNESS_ARGS = ["c19"]
 ALLOWED_AXIOMS = []
 RUN_IMPORT = "Reactive.ParkRun"
-READY = False
+READY = True
 IMPL_SHARDS = 12
 SHRINK_PREFIX = 1
 
@@ -201,6 +201,8 @@ def oracle(item, impl):
     c = item["case"]
     if isinstance(impl, str):
         return "harness error / panic: " + impl
+    if not isinstance(impl, list):
+        return "harness error: malformed observation %r" % (impl,)
     op = c[0]
     if op == 1:
         aw, cdone, hang = impl
